@@ -105,13 +105,29 @@ Proof. exact encodings_equivalent. Qed.
 (* layouts: any record kinds in ANY order (rows need not ascend), FORMULA followed by any run of
    ignored records (SHRFMLA / ARRAY / TABLE / …) before its STRING, STRING continued in any
    number of CONTINUE records (each with its own flag byte), ROW / DBCELL / INDEX / BLANK /
-   MULBLANK / … anywhere, DIMENSIONS in both widths *)
+   MULBLANK / … anywhere, DIMENSIONS in both widths, MERGECELLS records (IMerge), and — audit 2,
+   XLS-2 — substreams NESTED in the sheet (ISub: BOF, ANY records, EOF; the chart substream Excel
+   writes for every embedded chart object, [MS-XLS] 2.1.7.20.5 OBJECTS -> CHART): several per
+   sheet, anywhere between the cell records, holding cell records at positions of the sheet's own
+   cells, FORMULA / STRING / MERGECELLS / DIMENSIONS, CONTINUE records and further BOF … EOF
+   pairs; the only condition is that BOF and EOF balance *)
 Theorem C02_sheet_cells :
   forall (fdiv100 : N -> N) (decode16 : list N -> list N) (en : env) (c : layout),
   wf_layout c = true ->
   sheet_cells fdiv100 decode16 en (encode_sheet c) =
     Ok (logical fdiv100 decode16 en c, layout_fmls c).
 Proof. exact sheet_cells_encode. Qed.
+
+(* a nested substream is inert: with or without it the sheet reads the same cells and formula
+   positions, wherever it stands and whatever it holds *)
+Theorem C02_nested_substream_inert :
+  forall (fdiv100 : N -> N) (decode16 : list N -> list N) (en : env)
+         (before : list item) (bof : list N) (recs : list srec) (after : list item) (trailer : list N),
+  wf_layout (mkLayout (before ++ ISub bof recs :: after) trailer) = true ->
+  wf_layout (mkLayout (before ++ after) trailer) = true /\
+  sheet_cells fdiv100 decode16 en (encode_sheet (mkLayout (before ++ ISub bof recs :: after) trailer)) =
+  sheet_cells fdiv100 decode16 en (encode_sheet (mkLayout (before ++ after) trailer)).
+Proof. exact nested_substream_inert. Qed.
 
 (* a record of any type but FORMULA between a FORMULA and its STRING leaves the pending
    position where it was *)
@@ -207,6 +223,21 @@ Example C02_main_nonvacuous : forall fdiv100 decode16,
   length (logical fdiv100 decode16 example_env example_layout) = 14%nat.
 Proof. exact example_legal. Qed.
 
+(* the former defect XLS-2: a worksheet with an embedded chart (ISub) whose series cache is
+   addressed like A1, A2 of the sheet, MERGECELLS and a later cell behind it: the sheet reads back
+   as its own cells.  [ex_chart] (an item of example_layout above) is a chart substream holding
+   NUMBER / LABEL / BOOLERR / RK records, FORMULA + STRING, MERGECELLS, a record with two CONTINUE
+   records and a further BOF … EOF pair *)
+Example C02_chart_nonvacuous : forall fdiv100,
+  wf_item ex_chart = true /\
+  legal fdiv100 id_decode example_env chart_layout
+        (logical fdiv100 id_decode example_env chart_layout) /\
+  sheet_model fdiv100 id_decode example_env (encode_sheet chart_layout)
+    = Ok (mkRange (0, 0) (2, 1)
+            [DString [78; 0]; DString [86; 0]; DString [97; 0]; DFloat 4621819117588971520;
+             DBool true; DEmpty]).
+Proof. exact example_chart_sheet. Qed.
+
 (* FORMULA, SHRFMLA, STRING (first cell of a filled-down shared text formula), then FORMULA,
    STRING (second cell); FORMULA, ARRAY, STRING (array anchor returning text), the row blocks
    NOT in row order: legal, and read back with every string at its cell *)
@@ -283,6 +314,7 @@ Print Assumptions C02_err_codes_one_to_one.
 Print Assumptions C02_formula_cached_value.
 Print Assumptions C02_encodings_equivalent.
 Print Assumptions C02_sheet_cells.
+Print Assumptions C02_nested_substream_inert.
 Print Assumptions C02_between_keeps_position.
 Print Assumptions C02_xls_sheet_main.
 Print Assumptions C02_string_continue_bytes.
